@@ -110,11 +110,11 @@ fn render(d: &Doc) -> String {
 fn spec_running(d: &Doc) -> Option<(BTreeMap<u32, u32>, BTreeMap<u32, u32>)> {
     if d.not_toml || d.roto { return None; }
     let names = |vs: &Vec<V>| -> Option<Vec<u32>> { vs.iter().map(|v| if let V::S(n) = v { Some(*n) } else { None }).collect() };
-    // any ill-typed source value anywhere makes the document invalid
-    for c in d.units.iter().chain(d.targets.iter()) {
-        if matches!(c.source, Some(V::Bad)) { return None; }
-        match &c.sources { Srcs::One(V::Bad) => return None, Srcs::Many(vs) if vs.contains(&V::Bad) => return None, _ => {} }
-    }
+    // an ill-typed value under a key the component's type reads makes the document invalid
+    // (a key the type does not know is ignored by rotonda, like any other unknown key)
+    let bad_sources = |c: &RawComp| match &c.sources { Srcs::One(V::Bad) => true, Srcs::Many(vs) => vs.contains(&V::Bad), _ => false };
+    for c in &d.units { if c.ty.map(|t| t >= 3).unwrap_or(false) && bad_sources(c) { return None; } }
+    for c in &d.targets { if bad_sources(c) || (c.ty == Some(0) && matches!(c.source, Some(V::Bad))) { return None; } }
     let mut units: BTreeMap<u32, u32> = BTreeMap::new();
     let mut refs: BTreeSet<u32> = BTreeSet::new();
     let mut last: BTreeMap<u32, u32> = BTreeMap::new(); // shorthand unit -> its last vRIB
@@ -137,9 +137,9 @@ fn spec_running(d: &Doc) -> Option<(BTreeMap<u32, u32>, BTreeMap<u32, u32>)> {
         let ty = c.ty?;
         targets.insert(c.name, ty);
         match (ty, &c.sources, &c.source) {
-            (0, Srcs::One(V::S(n)), None) | (1, Srcs::One(V::S(n)), None) | (0, Srcs::Absent, Some(V::S(n))) => { refs.insert(remap(*n)); }
+            (0, Srcs::One(V::S(n)), None) | (1, Srcs::One(V::S(n)), _) | (0, Srcs::Absent, Some(V::S(n))) => { refs.insert(remap(*n)); }
             (0, Srcs::Many(vs), None) => for n in names(vs)? { refs.insert(remap(n)); },
-            (2, Srcs::Many(vs), None) if !vs.is_empty() => for n in names(vs)? { refs.insert(remap(n)); },
+            (2, Srcs::Many(vs), _) if !vs.is_empty() => for n in names(vs)? { refs.insert(remap(n)); },
             _ => return None,
         }
     }
@@ -323,6 +323,17 @@ impl Gen {
         }
         d
     }
+    /// keys a component's type does not read (ignored by serde, but seen by `remap_sources`)
+    fn stray(&mut self, d: &Doc) -> Doc {
+        let mut d = d.clone();
+        match self.rng.below(4) {
+            0 => { if let Some(t) = d.targets.iter_mut().find(|t| t.ty != Some(0)) { t.source = Some(V::S(self.rng.below(3) as u32)); } }
+            1 => { let i = self.rng.below(d.units.len() as u64) as usize; d.units[i].source = Some(V::S(self.rng.below(40) as u32)); }
+            2 => { if let Some(u) = d.units.iter_mut().find(|u| u.ty.map(|t| t < 3).unwrap_or(false)) { u.sources = Srcs::Many(vec![V::S(self.rng.below(40) as u32)]); } }
+            _ => { if let Some(t) = d.targets.iter_mut().find(|t| t.ty == Some(0) && t.source.is_none()) { t.source = Some(V::S(0)); } } // null-out with both keys: duplicate field
+        }
+        d
+    }
 }
 
 fn main() {
@@ -381,7 +392,7 @@ fn main() {
         let mut docs: Vec<Doc> = vec![];
         let mut cur = g.valid_doc();
         for _ in 0..len {
-            let d = match g.rng.below(10) { 0 => g.valid_doc(), 1..=3 => g.breakit(&cur), _ => g.edit(&cur) };
+            let d = match g.rng.below(11) { 0 => g.valid_doc(), 1..=3 => g.breakit(&cur), 4 => g.stray(&cur), _ => g.edit(&cur) };
             if spec_running(&d).is_some() { cur = d.clone(); }
             docs.push(d);
         }
